@@ -275,6 +275,8 @@ CHECKS["C06"] = {
         {"harness": "VerifC06Att", "params": {"k": 3, "ops": [4, 1], "rev": 0, "cont": 1, "cancel": [1, 2]}},
         # Store(X) overlapping with X's expiry and another Store that drains it (interference at lock boundaries)
         {"harness": "VerifC06Expiry", "params": {}},
+        # a blocking query overlapping with the store of its key (the store runs at a lock boundary of the Await call)
+        {"harness": "VerifC06AwaitIntf", "params": {"kind": [0, 1, 2, 3]}},
     ],
     "thorough": [
         {"harness": "VerifC06Contrib", "params": {"cancel": 0, "k": 4, "ops": _c06_patterns(4), "plural": 0, "rev": 0}, "timeout_ms": 300000},
@@ -287,6 +289,7 @@ CHECKS["C06"] = {
         {"harness": "VerifC06Contrib", "params": {"k": 3, "ops": _c06_patterns(3), "plural": 0, "rev": 0, "cancel": [1, 2, 3]}},
         {"harness": "VerifC06Att", "params": {"k": 3, "ops": _c06_patterns(3), "rev": 0, "cont": 1, "cancel": [1, 2, 3]}},
         {"harness": "VerifC06Expiry", "params": {}, "cross": True},
+        {"harness": "VerifC06AwaitIntf", "params": {"kind": [0, 1, 2, 3]}, "cross": True},
         {"harness": "VerifC06Att", "params": {"cancel": 0, "k": 4, "ops": _c06_patterns(4), "rev": 0, "cont": 1}, "timeout_ms": 300000},
         {"harness": "VerifC06Att", "params": {"cancel": 0, "k": 4, "ops": _c06_patterns(4, range(0, 81, 3)), "rev": 1, "cont": 1}, "reversemaps": True, "timeout_ms": 300000},
         {"harness": "VerifC06Att", "params": {"cancel": 0, "k": 5, "ops": [90, 99, 57, 81, 84, 111, 120], "rev": 0, "cont": 1}, "timeout_ms": 300000},
